@@ -39,13 +39,17 @@ Definition is_bwd (k : skind) : bool := match k with Bwd => true | _ => false en
 (* [a] is the node before the first step of p.  Inner node b entered from a by k1 and left towards c by k2:
    collider      -> open iff b in An*(Z);
    non-collider  -> blocked iff b in Z and an outgoing path edge (b -> a, i.e. k1 = Bwd, or b -> c, i.e. k2 = Fwd)
-                    leaves the strongly connected component of b. *)
+                    leaves the strongly connected component of b; i.e. open iff b is outside Z or every outgoing
+                    path edge stays inside the component.
+   (written with if-then-else so that evaluation is short-circuit also under call-by-value) *)
 Fixpoint sigma_open_b (g : mgraph) (anZ Z : list nat) (a : nat) (p : spath) : bool :=
   match p with
   | (k1, b) :: (((k2, c) :: _) as t) =>
-      (if collider k1 k2 then memb b anZ
-       else negb (memb b Z && ((is_bwd k1 && negb (scb g b a)) || (is_fwd k2 && negb (scb g b c)))))
-      && sigma_open_b g anZ Z b t
+      if (if collider k1 k2 then memb b anZ
+          else if memb b Z
+               then (if is_bwd k1 then scb g b a else true) && (if is_fwd k2 then scb g b c else true)
+               else true)
+      then sigma_open_b g anZ Z b t else false
   | _ => true
   end.
 
